@@ -53,6 +53,9 @@ class V(object):
         self.Mx = _posdef(n, 0.1 + 0.01 * v, 1.0 + 0.3 * v)
         self.C = _ar1(n, 0.4 + 0.1 * v)  # correlation matrix
         self.Mrel = _posdef(n, 0.07 + 0.01 * v, 2.0 + 0.3 * v)  # relative covariance
+        # fixed pseudo-noise (zero mean, unit-ish spread) for data generated from a model
+        nz = np.array([0.62, -1.10, 0.35, 1.25, -0.48, -0.92, 1.05, -0.15, 0.71, -1.33, 0.28, 0.72])[:n]
+        self.noise = (nz - nz.mean()) * (1.0 + 0.1 * v)
         # integer (Poisson compatible) data
         self.yint = np.round(self.y * 3.0 + 2.0)
         self.yint_alt = self.yint[::-1] + 1.0
